@@ -484,3 +484,10 @@ PROPS["C20"] = {
     "min_quick": {"evaluations": 600},
     "min_thorough": {"evaluations": 15_000},
 }
+
+
+PROPS["C14"]["tiers"]["quick"].append(sim_job("C14idle", 120))
+PROPS["C14"]["tiers"]["thorough"].append(sim_job("C14idle", 2400))
+PROPS["C14"]["rule"] += (" A third job (profile C14idle) gives the two endpoints different max_idle_timeout values (one of them possibly none) and "
+                         "then blackholes the path for good after the handshake: both ends must report the failure within the value that applies "
+                         "(the smaller one, or the only one), judged by C02's failure-report deadline oracle.")
